@@ -292,7 +292,7 @@ def c10_oracle(case, io):
     from . import c10 as _c10
     outs, ops = io["outs"], case["ops"]
     fails = []
-    m = len(ops) - 1
+    m = case.get("m", len(ops) - 1)        # (ops may follow the merge under test: c10.merge_index)
     if any(o["ret"] == "REFUSED" for o in outs[:m]):
         return ["refused_valid: setup refused: " + "; ".join(io["log"][:2])]
     op = ops[m]
